@@ -73,6 +73,9 @@ func setupTLSConfig(sslOpts *SslOptions) (*tls.Config, error) {
 	if sslOpts.CaPath != "" {
 		if tlsConfig.RootCAs == nil {
 			tlsConfig.RootCAs = x509.NewCertPool()
+		} else {
+			// Config.Clone copies the pointer: do not add to the pool of the caller
+			tlsConfig.RootCAs = tlsConfig.RootCAs.Clone()
 		}
 
 		pem, err := ioutil.ReadFile(sslOpts.CaPath)
